@@ -13,7 +13,7 @@ LEVEL = 'model_checking'
 RULE = ('programs = every body tree with <= N operators over the 8 leaves in the context of C05 (callee with a later '
         'clause, caller with alternatives, a dynamic fact) and the meta-call programs of C09 over o/1, m/1, r/2; for '
         'each program EVERY non-empty subset of the fact predicates it uses (z/0 o/1 m/1 k/1, r/2) is re-implemented as a '
-        'registered Python generator function x registration style {inferred, explicit, explicit with a generic *args function, variadic arity given as -1 and as -3; inferred also for a bound method, for a functools.wraps-decorated function and for a function that returns a cursor object (an iterator with close(), also kept in a registry) instead of a generator} x yielded '
+        'registered Python generator function x registration style {inferred, explicit, explicit with a generic *args function, variadic arity given as -1 and as -3; inferred also for a bound method, for a method bound to the engine object itself, for a functools.wraps-decorated function and for a function that returns a cursor object (an iterator with close(), also kept in a registry) instead of a generator} x yielded '
         'value {False, True} [x a dynamic fact next to the Python predicate] [x on a fresh engine / on an engine that was queried before and had an earlier version of the predicates registered]; answers compared with RefProlog run on '
         'the all-Prolog program. For every program/subset additionally one run per event j (entry or resumption of a '
         'Python predicate) in which the predicate raises a fresh exception object - of each of 7 classes (a custom one, TypeError, ValueError, RuntimeError, KeyError, AttributeError, AssertionError), through an inferred-arity and through a variadic registration - at its j-th event: the consumer must '
@@ -131,6 +131,20 @@ def make_py(yp, key, style, yv, events):
                 OPEN_CURSORS.append(c)
                 return c
         return cpred, None
+    if style == 'inferred-engine-method':
+        # a method BOUND TO THE ENGINE OBJECT itself (a YP subclass registering self.pred, or
+        # types.MethodType(f, yp)): still the user's predicate, not one of the engine's own
+        import types
+        if n == 0:
+            def epred(self_):
+                return body(())
+        elif n == 1:
+            def epred(self_, arg1):
+                return body((arg1,))
+        else:
+            def epred(self_, arg1, arg2):
+                return body((arg1, arg2))
+        return types.MethodType(epred, yp), None
     if style == 'inferred-method':
         # a bound method: the function object behind it has one more parameter (self)
         class Holder:
@@ -262,10 +276,10 @@ def check_program(acc, index, clauses, goal, dyn_extra, label):
         exp = [anonymize(a, anon_ix) for a in exp]
     subsets = [s for r in range(1, len(used) + 1) for s in itertools.combinations(used, r)]
     for sub in subsets:
-        for style in ('inferred', 'explicit', 'explicit-generic', 'variadic', 'inferred-method', 'inferred-decorated', 'inferred-cursor', 'variadic-other-negative'):
+        for style in ('inferred', 'explicit', 'explicit-generic', 'variadic', 'inferred-method', 'inferred-decorated', 'inferred-cursor', 'variadic-other-negative', 'inferred-engine-method'):
             for yv in (False, True):
                 del OPEN_CURSORS[:]
-                if style in ('inferred-method', 'inferred-decorated', 'inferred-cursor', 'variadic-other-negative') and yv is False:
+                if style in ('inferred-method', 'inferred-decorated', 'inferred-cursor', 'variadic-other-negative', 'inferred-engine-method') and yv is False:
                     continue
                 acc.n['evaluations'] += 1
                 acc.n['validated'] += 1
